@@ -10,14 +10,15 @@ Proof. intros []; vm_cast_no_check (eq_refl true). Qed.
 Lemma accept_rearm_checked : forall a, let d := sys_rearm skel Accepter a in scheck d (rearm_inv d) = true.
 Proof. intros []; vm_cast_no_check (eq_refl true). Qed.
 
-(* F10: Accept parked without deadline; one is set; it expires; nothing wakes the call *)
-Definition f10_labels : list label := [LThread 0; LLSetRD DFuture; LTick LRD].
-Lemma accept_deadline_found :
-  forall a, let d := sys_none_then_set skel Accepter a in found_ok d (inv_expiry_wakes d) f10_labels = true.
+(* F10 repaired: the FULL deadline-change statement for Accept (every Listener.SetReadDeadline value
+   incl. clearing, set while the call is parked) and the strong no-early-timeout reading *)
+Lemma accept_oned_checked : forall a, let d := sys_1d skel Accepter a in scheck d (oned_inv d) = true.
 Proof. intros []; vm_cast_no_check (eq_refl true). Qed.
-
-(* ... and a deadline cleared while Accept is parked still fires *)
-Definition f10_cleared_labels : list label := [LLSetRD DFuture; LThread 0; LLSetRD DNone].
-Lemma accept_cleared_found :
-  forall a, let d := sys_1 skel Accepter a in found_ok d (inv_cleared d) f10_cleared_labels = true.
+Lemma accept_full_checked : forall a, let d := sys_1 skel Accepter a in scheck d (fixed_one_inv Accepter d) = true.
+Proof. intros []; vm_cast_no_check (eq_refl true). Qed.
+Lemma accept_strong_tm_checked : forall a, let d := sys_tm skel Accepter a in scheck d (strong_tm_inv d) = true.
+Proof. intros []; vm_cast_no_check (eq_refl true). Qed.
+Lemma accept_strong_one_checked : forall a, let d := sys_1 skel Accepter a in scheck d (strong_one_inv Accepter d) = true.
+Proof. intros []; vm_cast_no_check (eq_refl true). Qed.
+Lemma accept_extend_checked : forall a, let d := sys_extend_n skel Accepter 2 a in scheck d (strong_extend_inv d) = true.
 Proof. intros []; vm_cast_no_check (eq_refl true). Qed.
